@@ -133,3 +133,10 @@ Check lazy_bfs_refines :
     (forall x, In x xs -> (exists h, In h hs /\ anc g x h) /\ (max_cut g d < max_cut g x)%N) ->
     lazy_run g (max_cut g d) tie (length g) (bfs_init hs) xs = eager_run (conv_init g (max_cut g d) hs) xs.
 Print Assumptions lazy_bfs_refines.
+
+(** The function the correspondence run evaluates (tabulated max_cut / jump) is the model. *)
+From Aranya Require Import proofs.BraidFast.
+Theorem braid_fast_eq : braid_fast_eq_stmt.
+Proof. exact braid_fast_eq_proof. Qed.
+Check braid_fast_eq : forall (g : graph) (hs : list N), braid_fast g hs = braid_L1 g hs.
+Print Assumptions braid_fast_eq.
